@@ -1398,7 +1398,7 @@ Proof.
     + (* both edges go through *)
       apply bcmp_eq in Fl. apply bcmp_eq in Fr.
       pose proof (firstn_eq_split _ _ Fl) as El. pose proof (firstn_eq_split _ _ Fr) as Er.
-      set (l' := skipn (length rk) left) in *. set (r' := skipn (length rk) right) in *.
+      remember (skipn (length rk) left) as l' eqn:Dl in *. remember (skipn (length rk) right) as r' eqn:Dr in *.
       destruct (unset_internal rv l' r') as [[rv'|]|e] eqn:Eu; try discriminate. inversion E; subst a. cbn [act_node].
       intros k [B1 B2]. rewrite Hlk. destruct (strip rk k) as [k'|] eqn:Ek; [|reflexivity].
       apply strip_some in Ek. subst k.
